@@ -26,6 +26,18 @@ for d in sorted(glob.glob(os.path.join(ROOT, "seeded", "C*-*"))):
         results[sid] = {"property": prop, "exit": r.returncode, "status": "caught" if r.returncode == 1 else ("undecided" if r.returncode == 2 else ("missed" if r.returncode == 0 else "checker-error")),
                         "failed_obligations": failed[:6], "n_failed": len(failed), "undecided": undec[:3],
                         "no_failing_input": bool(re.search(r"^VIOLATION .* no-failing-input-found", out, re.M)) and not bool(re.search(r"^VIOLATION property=\S+ replay=\S+$", out, re.M))}
+        demo = os.path.join(d, "demo.py")
+        if r.returncode == 0 and os.path.exists(demo):
+            # not flagged: does the change still break the property on the CURRENT tree?  (repairs made since the seed was
+            # written can make it harmless: its own demonstration then passes on the patched copy)
+            denv = dict(os.environ, PYTHONPATH=os.path.join(ROOT, "stubs") + ":" + tmp, MPMATH_NOGMPY="1", SYMPY_GROUND_TYPES="python", MPLBACKEND="Agg")
+            try:
+                dr = subprocess.run(["/venv/bin/python", demo], cwd=tmp, env=denv, capture_output=True, text=True, timeout=1800)
+                if dr.returncode == 0:
+                    results[sid]["status"] = "no-longer-a-violation"
+                    results[sid]["detail"] = "the seed's own demonstration passes on the current tree with the patch applied (a later repair made the change harmless)"
+            except subprocess.TimeoutExpired:
+                pass
     finally:
         shutil.rmtree(tmp, ignore_errors=True)
     json.dump(results, open(res_path, "w"), indent=1, sort_keys=True)
